@@ -154,12 +154,12 @@ func c01CheckChunk(run *c01Run, output string, where string, ch *ffChunk, seen m
 		}
 	}
 	st := ch.Stamps()
-	if prev, ok := seen[ch.ID]; ok {
+	if prev, ok := seen[c01ChunkKey(ch)]; ok {
 		if fmt.Sprint(prev) != fmt.Sprint(st) {
 			add("c01:chunk-changed", fmt.Sprintf("same chunk id with different contents: %v then %v", prev, st))
 		}
 	} else {
-		seen[ch.ID] = st
+		seen[c01ChunkKey(ch)] = st
 	}
 }
 
@@ -201,10 +201,26 @@ func c01MinLostChunks(run *c01Run, pipeline string, missing map[e2eStamp]bool) i
 	return best
 }
 
+// c01CheckAttempts: an upstream connection belongs to one pipeline (sanity of the observation itself)
+func c01CheckAttempts(run *c01Run, output string, fails *[]Fail) {
+	tagOf := map[int]string{}
+	chunks := run.Chunks[output]
+	for i := range chunks {
+		ch := &chunks[i]
+		if t, ok := tagOf[ch.Attempt]; ok && t != ch.Tag {
+			*fails = append(*fails, Fail{"c01:connection-mixes-pipelines", fmt.Sprintf("seed %d variant %d output %s: upstream connection %d carried chunks tagged %s and %s (chunk %s)\n%s",
+				run.Sc.Seed, run.Sc.Variant, output, ch.Attempt, t, ch.Tag, ch.ID, run.Trace.Dump(0))})
+			return
+		}
+		tagOf[ch.Attempt] = ch.Tag
+	}
+}
+
 func c01AccountOutput(run *c01Run, output string, fails *[]Fail) *c01Account {
 	acct := &c01Account{Acked: map[e2eStamp]bool{}, Disk: map[e2eStamp]bool{}, Covered: true}
 	seen := map[string][]e2eStamp{}
 	chunks := run.Chunks[output]
+	c01CheckAttempts(run, output, fails)
 	for i := range chunks {
 		ch := &chunks[i]
 		c01CheckChunk(run, output, fmt.Sprintf("received on attempt %d", ch.Attempt), ch, seen, fails)
